@@ -166,7 +166,21 @@ func buildConfig(g c09group, pattern []int, exprParent bool, useLevel int) *Prog
 		for j := 0; j < g.B; j++ {
 			switch pattern[(k-1)*g.B+j] {
 			case 1:
-				body = append(body, &gen.NBlock{Name: "b" + strconv.Itoa(j), Body: blockBody(fmt.Sprintf("t%d.b%d", k, j), false)})
+				var extra []gen.Node
+				if (k+j)%3 == 2 {
+					// an embed that overrides nothing, after other blocks of this template have been closed: the
+					// blocks of this template stay what they are
+					extra = append(extra, tx("{emb:"), &gen.NEmbed{Tpl: str("plainemb")}, tx("}"))
+					ts["plainemb"] = tpl("plainemb", tx("<plainemb>"), &gen.NBlock{Name: "b0", Body: []gen.Node{tx("emb-own-b0")}})
+				}
+				if g.layout == 0 && j+1 < g.B && pattern[(k-1)*g.B+j+1] == 0 && (k+j)%2 == 1 {
+					// a block nested in this override that re-defines the NEXT block of the layout (which this
+					// template does not define otherwise) and calls parent(): its parent is that block's
+					// version further up, not the block it happens to stand in
+					nb := "b" + strconv.Itoa(j+1)
+					extra = append(extra, &gen.NBlock{Name: nb, Body: blockBody(fmt.Sprintf("t%d.nested-%s", k, nb), true)})
+				}
+				body = append(body, &gen.NBlock{Name: "b" + strconv.Itoa(j), Body: blockBody(fmt.Sprintf("t%d.b%d", k, j), false, extra...)})
 			case 2:
 				bb := blockBody(fmt.Sprintf("t%d.b%d", k, j), true)
 				if g.layout == 0 && j+1 < g.B && (k+j)%3 == 1 {
